@@ -23,6 +23,7 @@ type burstT struct {
 	S     time.Duration `json:"s"`
 	Pre   int           `json:"pre"`
 	Cfg   int           `json:"cfg"`
+	Post  int           `json:"post"` // acceptable same-transaction datagrams behind the first acceptable one (>= 1); with 7 or more the receive loop is parked on the full buffer when the call returns
 }
 
 func judgeBurst(r *mon.Rec, t *testing.T, b burstT) {
@@ -69,7 +70,7 @@ func judgeBurst(r *mon.Rec, t *testing.T, b burstT) {
 			fed := make(chan struct{})
 			go func() {
 				defer close(fed)
-				for i := 1; i <= b.Pre+2; i++ {
+				for i := 1; i <= b.Pre+1+max(b.Post, 1); i++ {
 					typ := f.OtherType()
 					if i > b.Pre {
 						typ = accept
@@ -79,7 +80,7 @@ func judgeBurst(r *mon.Rec, t *testing.T, b burstT) {
 					}
 				}
 			}()
-			time.Sleep(time.Duration(b.Pre+4)*b.S + time.Second)
+			time.Sleep(time.Duration(b.Pre+4+b.Post)*b.S + time.Second)
 			synctest.Wait()
 			// afterwards the client is a client like before: a second call (alone on the client, another transaction id)
 			// gets the reply that arrives for it
@@ -111,7 +112,7 @@ func judgeBurst(r *mon.Rec, t *testing.T, b burstT) {
 		})
 	})
 	bad := func(key, msg string, a ...any) {
-		r.Violate("C10:burst:"+key, fmt.Sprintf("%s slow matcher (%v per datagram), %d rejected + 2 acceptable datagrams back to back: ", b.Fam, b.S, b.Pre)+fmt.Sprintf(msg, a...), b)
+		r.Violate("C10:burst:"+key, fmt.Sprintf("%s slow matcher (%v per datagram), %d rejected + %d acceptable datagrams back to back: ", b.Fam, b.S, b.Pre, 1+max(b.Post, 1))+fmt.Sprintf(msg, a...), b)
 	}
 	if pan {
 		bad("panic:"+mon.LibFrame(st), "%v", val)
@@ -143,7 +144,7 @@ func judgeBurst(r *mon.Rec, t *testing.T, b burstT) {
 		bad("followup-call", "a second call on the same client after the burst (alone, another transaction id, its reply injected 1 s after its start) returned nonce=%d msg=%v err=%v at %v", fNonce, fGot, fErr, fAt)
 		return
 	}
-	r.Shape(fmt.Sprintf("burst/%s/%v/%d", b.Fam, b.S, b.Pre), b.Pre >= 5)
+	r.Shape(fmt.Sprintf("burst/%s/%v/%d/%d", b.Fam, b.S, b.Pre, b.Post), b.Pre >= 5)
 	r.Count("burst.datagrams", b.Pre+2)
 }
 
@@ -152,7 +153,7 @@ func burstGrid() []burstT {
 	for _, fm := range []string{"nclient4", "nclient6"} {
 		for _, s := range []time.Duration{time.Millisecond, 30 * time.Millisecond, 150 * time.Millisecond, 2 * time.Second, time.Minute} {
 			for pre := 0; pre <= 12; pre++ {
-				out = append(out, burstT{true, fm, s, pre, len(out) % cli.NCfg})
+				out = append(out, burstT{true, fm, s, pre, len(out) % cli.NCfg, []int{1, 8, 2, 11}[pre%4]})
 			}
 		}
 	}
